@@ -925,7 +925,11 @@ func propC10(c *Ctx) {
 		// current entry point
 		args := in.resolveNewArgs()
 		args[5] = srFillTable(cs, "C10.resolve_new", args, 5)
-		out := c.Run("C10.resolve_new", args, "C10.resolve_new", "", desc)
+		v1op, v1oldop := "", ""
+		if algo == gmsl.StateResV1 {
+			v1op, v1oldop = "C10.prop.v1", "C10.prop.v1_old"
+		}
+		out := c.Run("C10.resolve_new", args, "C10.resolve_new", v1op, desc)
 		c.Count(fmt.Sprintf("result_size<=%d", (len(strings.Split(string(out), ","))/5+1)*5))
 		c.Count(fmt.Sprintf("table_rows<=%d", (bytes.Count(args[5], []byte("\n"))/10+1)*10))
 
@@ -936,14 +940,14 @@ func propC10(c *Ctx) {
 		}
 		oargs := [][]byte{[]byte(ver), in.universe, srCSV(all), srCSV(in.auth), []byte(strings.Join(in.rejected, ",")), nil, in.evjson}
 		oargs[5] = srFillTable(cs, "C10.resolve_old", oargs, 5)
-		c.Run("C10.resolve_old", oargs, "C10.resolve_old", "", desc)
+		c.Run("C10.resolve_old", oargs, "C10.resolve_old", v1oldop, desc)
 
 		if algo != gmsl.StateResV1 {
 			// the stages, on the lists the model's driver hands them
 			st := strings.Split(string(srModelStart().call("C10.stages", args)), ";")
 			if len(st) == 4 {
-				c.Run("C10.power_order", [][]byte{[]byte(ver), in.universe, []byte(st[0]), srCSV(in.auth), []byte(st[3]), in.evjson}, "C10.power_order", "", desc+" control events")
-				c.Run("C10.mainline_order", [][]byte{[]byte(ver), in.universe, []byte(st[1]), srCSV(in.auth), []byte(st[2]), in.evjson}, "C10.mainline_order", "", desc+" other events")
+				c.Run("C10.power_order", [][]byte{[]byte(ver), in.universe, []byte(st[0]), srCSV(in.auth), []byte(st[3]), in.evjson}, "C10.power_order", "C10.prop.power_order", desc+" control events")
+				c.Run("C10.mainline_order", [][]byte{[]byte(ver), in.universe, []byte(st[1]), srCSV(in.auth), []byte(st[2]), in.evjson}, "C10.mainline_order", "C10.prop.mainline_order", desc+" other events")
 				if st[0] != "" {
 					c.Count("control_nonempty")
 				}
@@ -963,14 +967,14 @@ func propC10(c *Ctx) {
 			if c.Rng.Intn(2) == 0 {
 				create = in.h.evs[0].EventID()
 			}
-			c.Run("C10.power_order", [][]byte{[]byte(ver), in.universe, srCSV(sub), srCSV(in.auth), []byte(create), in.evjson}, "C10.power_order", "", desc+" random sublist")
+			c.Run("C10.power_order", [][]byte{[]byte(ver), in.universe, srCSV(sub), srCSV(in.auth), []byte(create), in.evjson}, "C10.power_order", "C10.prop.power_order", desc+" random sublist")
 			pl := ""
 			for _, e := range in.h.evs {
 				if e.Type() == spec.MRoomPowerLevels && c.Rng.Intn(3) == 0 {
 					pl = e.EventID()
 				}
 			}
-			c.Run("C10.mainline_order", [][]byte{[]byte(ver), in.universe, srCSV(sub), srCSV(in.auth), []byte(pl), in.evjson}, "C10.mainline_order", "", desc+" random sublist")
+			c.Run("C10.mainline_order", [][]byte{[]byte(ver), in.universe, srCSV(sub), srCSV(in.auth), []byte(pl), in.evjson}, "C10.mainline_order", "C10.prop.mainline_order", desc+" random sublist")
 		}
 	}
 }
